@@ -2,7 +2,7 @@
 From Coq Require Extraction ExtrOcamlBasic ExtrOcamlString.
 From Coq Require Import List Ascii String.
 Require Import TT.Model.Str TT.Model.C07TypeParse TT.Model.Pipeline TT.Spec.TsLex TT.Spec.TsModule TT.Spec.TsObs.
-Require Import TT.Spec.C02Closed TT.Model.C02Model TT.Spec.C02Domain.
+Require Import TT.Spec.C02Closed TT.Model.C02Model TT.Spec.C02Domain TT.Model.C02Reuse.
 Import ListNotations.
 
 Definition sx_ref (r : ref) : sx :=
@@ -53,5 +53,18 @@ Definition c02_atp (rust : str) (real : str) : sx :=
       sx_opt (fun l => SL (map sx_ref l)) parsed;
       sx_bool (garbage [] t)].
 
+(* one analyzer reused over the rounds of a history (Model/C02Reuse.v): the class flag of C02-9 and, per
+   round, the report of the view of the accumulated state, the decidable premise fresh_ok and the
+   sizes of the state *)
+Fixpoint reuse_rounds (st : astate) (h : list rinput) (zod : bool) : list sx :=
+  match h with
+  | [] => []
+  | r :: t => let st' := step st r in
+              SL [c02_model (view st' (ri_maps r)) zod; sx_bool (fresh_ok st st' (ri_maps r));
+                  SL (map (fun e => SA (fst e)) (st_structs st'))] :: reuse_rounds st' t zod
+  end.
+Definition c02_reuse (h : list rinput) (zod : bool) : sx :=
+  SL [sx_bool (kf_reuse_maps h); SL (reuse_rounds st0 h zod)].
+
 Extraction Language OCaml.
-Extraction "tt_c02.ml" c02_judge c02_model c02_atp.
+Extraction "tt_c02.ml" c02_judge c02_model c02_atp c02_reuse.
